@@ -171,8 +171,8 @@ def make_vector(rng, regs, template_settings, mode, fixed):
                 v = raw << shift
                 names = {e.get_value_int(): e.name for e in bf.get_enums()}
                 style = rng.randrange(3)
-                if v in names and style == 0 and names[v] not in BAD_YAML_NAMES:
-                    d[bf_name] = names[v]
+                if v in names and style == 0 and pyres(bf.get_enum_constant, names[v]) == ("ok", v):
+                    d[bf_name] = names[v]  # (a name shared by several values denotes the first of them: not used for the others)
                 elif style == 1:
                     d[bf_name] = v
                 else:
@@ -197,14 +197,16 @@ def make_vector(rng, regs, template_settings, mode, fixed):
     return settings, expect
 
 
-BAD_YAML_NAMES = set()  # enum names are always written as strings by our generator; kept for clarity
-
-
-def readback(regs, expect):
+def readback(regs, expect, optional=()):
     """-> list of (reg, bitfield, expected, got) that differ."""
     bad = []
     for reg_name, bf_name, v in expect:
-        reg = regs.find_reg(reg_name, include_group_regs=True)
+        r = pyres(regs.find_reg, reg_name, include_group_regs=True)
+        if r[0] != "ok":
+            if reg_name not in optional:
+                bad.append((reg_name, bf_name, v, "register not found"))
+            continue
+        reg = r[1]
         got = reg.find_bitfield(bf_name).get_value() if bf_name is not None else reg.get_value(raw=False)
         if got != v:
             bad.append((reg_name, bf_name, v, got))
@@ -216,6 +218,7 @@ class AreaBase:
     """One (family, revision, area, sub) case on the real code."""
 
     fixed = frozenset()
+    optional = frozenset()   # registers that exist only for some settings (by design)
     has_binary = True
     settings_key = "settings"
 
@@ -321,6 +324,7 @@ class XmcdArea(AreaBase):
     settings_key = "xmcd_settings"
     # the header word describes the block itself (tag, version, size, block type, interface): structural
     fixed = frozenset({("header", None)})
+    optional = frozenset({"configOption1"})  # present iff configOption0.optionSize != 0
 
     def __init__(self, case):
         super().__init__(case)
@@ -500,6 +504,30 @@ def _install_compile_cache():
     fastjsonschema.compile = cached
 
 
+def _install_fast_registers_copy():
+    """XMCD's `registers` property deep-copies its Registers objects on every access, and a Registers object drags the whole
+    device-database entry (`self.db`) along: 0.2-0.6 s per access, ~20 s per case.  The database object is read-only for
+    Registers, so inside the workers a deep copy shares it (speed only; everything else is copied as before)."""
+    import copy
+
+    from spsdk.utils.registers import _RegistersBase
+    if getattr(_RegistersBase, "_verif_fast_copy", False):
+        return
+
+    def _deepcopy(self, memo):
+        db = self.__dict__.get("db")
+        if db is not None:
+            memo[id(db)] = db
+        new = self.__class__.__new__(self.__class__)
+        memo[id(self)] = new
+        for k, v in self.__dict__.items():
+            setattr(new, k, copy.deepcopy(v, memo))
+        return new
+
+    _RegistersBase.__deepcopy__ = _deepcopy
+    _RegistersBase._verif_fast_copy = True
+
+
 def known_finding_for(kind, what_key, detail):
     """Narrow predicates for recorded open findings (see /verif/known_findings.jsonl)."""
     return None
@@ -525,6 +553,7 @@ def _run_case(case, seed, nrand, keys, rec):
     from spsdk.utils.schema_validator import check_config
     logging.disable(logging.CRITICAL)
     _install_compile_cache()
+    _install_fast_registers_copy()
     kind, feat, sub, fam, rev = case
     cid = rec.cid
     rng = random.Random(f"C12/{seed}/{cid}")
@@ -595,7 +624,7 @@ def _run_case(case, seed, nrand, keys, rec):
         o1 = r[1]
         regs1 = A.regs(o1)
         if expect:
-            bad = readback(regs1, expect)
+            bad = readback(regs1, expect, A.optional)
             E(not bad, inp, "a configured in-range value is not the value the loaded object holds (lost or truncated)", bad[:4],
               finding=_finding_readback(A, bad))
         _chain(A, o1, inp, rec, kind, expect, settings, c, rng, keys)
@@ -673,7 +702,7 @@ def _chain(A, o1, inp, rec, kind, expect, settings, cfg, rng, keys):
               first_diff(b1, bytes(r2[1])) if r2[0] == "ok" else r2)
             regs2 = A.regs(o2)
             if regs2 is not None and expect:
-                bad = readback(regs2, expect)
+                bad = readback(regs2, expect, A.optional)
                 E(not bad, inp, "a value is not restored by parse(export(x))", bad[:4])
             if regs2 is not None and regs1 is not None:
                 rec.model.append({"op": "parse", "bytes": b1.hex(), "vals": raw_values(regs2), "inp": list(map(str, inp))})
